@@ -317,6 +317,16 @@ def apply(s, op, part, hist):
             if first is not r:
                 _bad(s, part, hist, op, "repeated request returned a different object", {"quantity": repr(r)})
                 return True
+            # ... and asked once more right away (histories that repeat a request are merged with the ones that do not)
+            if name in OPS_TABLE and OPS_TABLE[name][1] != "SHARED":
+                try:
+                    again = OPS_TABLE[name][0](s.db)
+                except Exception as e:
+                    _bad(s, part, hist, op, "the same request raised when repeated", {"error": repr(e)})
+                    return True
+                if again is not r:
+                    _bad(s, part, hist, op, "the same request repeated at once returned a different object", {"quantity": repr(r)})
+                    return True
     if failure is None and op.endswith("[fails]"):
         _bad(s, part, hist, op, "did not raise", {"returned": repr(r)[:200]})
         return True
